@@ -34,6 +34,7 @@ fn run(a: &[String]) -> String {
         "depth_limit" => scenarios::depth_limit(),
         "inspector_logs_inputs" => scenarios_r4::inspector_logs_inputs(),
         "reuse_spec_change" => scenarios_r4::reuse_spec_change(),
+        "block_hash_window" => scenarios_r4::block_hash_window(),
         "reward_differential" => scenarios::reward_differential(),
         "handler_flag" => scenarios::handler_flag(&a[1], a[2] == "true"),
         "has_storage_layer" => scenarios::has_storage_layer(&a[1]),
